@@ -17,3 +17,16 @@ func init() {
 			{"callbacks/create.go", "\t\tif db.Statement.Schema != nil {\n\t\t\tif !db.Statement.Unscoped {\n\t\t\t\tfor _, c := range db.Statement.Schema.CreateClauses {\n\t\t\t\t\tdb.Statement.AddClause(c)\n\t\t\t\t}\n\t\t\t}\n", "\t\tif sch := db.Statement.Schema; sch != nil {\n\t\t\tif !db.Statement.Unscoped {\n\t\t\t\tfor _, c := range sch.CreateClauses {\n\t\t\t\t\tdb.Statement.AddClause(c)\n\t\t\t\t}\n\t\t\t}\n"}}},
 	)
 }
+
+func init() {
+	addMutants(
+		Mutant{Name: "n40-automigrate-hastable-in-local", Property: "*", Rule: "NEUTRAL", Edits: []Edit{{"migrator/migrator.go",
+			"\t\tif !queryTx.Migrator().HasTable(value) {\n\t\t\tif err := execTx.Migrator().CreateTable(value); err != nil {", "\t\texists := queryTx.Migrator().HasTable(value)\n\t\tif !exists {\n\t\t\tif err := execTx.Migrator().CreateTable(value); err != nil {"}}},
+		Mutant{Name: "n41-query-executor-context-in-local", Property: "*", Rule: "NEUTRAL", Edits: []Edit{{"callbacks/query.go",
+			"\t\t\trows, err := db.Statement.ConnPool.QueryContext(db.Statement.Context, db.Statement.SQL.String(), db.Statement.Vars...)", "\t\t\tctx := db.Statement.Context\n\t\t\trows, err := db.Statement.ConnPool.QueryContext(ctx, db.Statement.SQL.String(), db.Statement.Vars...)"}}},
+		Mutant{Name: "n42-firstorcreate-lookup-error-else-form", Property: "*", Rule: "NEUTRAL", Edits: []Edit{{"finisher_api.go",
+			"\tresult := queryTx.Find(dest, conds...)\n\tif result.Error != nil {\n\t\ttx.Error = result.Error\n\t\treturn tx\n\t}\n\n\tif result.RowsAffected == 0 {\n\t\tif c, ok := result.Statement.Clauses[\"WHERE\"]; ok {", "\tresult := queryTx.Find(dest, conds...)\n\tif lookupErr := result.Error; lookupErr != nil {\n\t\ttx.Error = lookupErr\n\t\treturn tx\n\t}\n\n\tif result.RowsAffected == 0 {\n\t\tif c, ok := result.Statement.Clauses[\"WHERE\"]; ok {"}}},
+		Mutant{Name: "n43-raw-exec-statement-local", Property: "*", Rule: "NEUTRAL", Edits: []Edit{{"callbacks/raw.go",
+			"\t\tresult, err := db.Statement.ConnPool.ExecContext(db.Statement.Context, db.Statement.SQL.String(), db.Statement.Vars...)", "\t\tstmt := db.Statement\n\t\tresult, err := stmt.ConnPool.ExecContext(stmt.Context, stmt.SQL.String(), stmt.Vars...)"}}},
+	)
+}
